@@ -255,10 +255,20 @@ def pow2_scale(arrs, maxpow=8):
     return None
 
 
+class TooLarge(Exception):
+    """a scaled value does not fit the 32-bit integers of TLC: the scenario is skipped (counted), never judged"""
+
+
 def to_ints(a, scale, bound=2 ** 26):
+    """exact integers a * scale (nested lists); None if some entry is not integral (the caller logs the
+    clause-visible flag `exact = 0`); raises TooLarge if an entry is too large for TLC"""
     a = np.asarray(a, dtype=np.float64) * scale
+    if not np.isfinite(a).all():
+        return None
+    if (np.abs(a) >= bound).any():
+        raise TooLarge()
     r = np.rint(a)
-    if not np.array_equal(a, r) or (np.abs(r) >= bound).any():
+    if not np.array_equal(a, r):
         return None
     return r.astype(np.int64).tolist()
 
